@@ -85,8 +85,11 @@ func addr[T any](v T) *T {
 }
 
 func NewDefaultKoanf(ctx context.Context) (*koanf.Koanf, error) {
+	// Map-typed defaults must be non-nil: koanf merges the config file into these
+	// maps, and a nil map cannot be written to (e.g. a top-level `_anchors` section).
 	c := Config{
 		All:                         addr(false),
+		Anchors:                     map[string]any{},
 		Dir:                         addr("{{.InterfaceDir}}"),
 		FileName:                    addr("mocks_test.go"),
 		ForceFileWrite:              addr(false),
